@@ -314,11 +314,13 @@ func (s *state) WritePayload(ctx context.Context, transaction Transaction, paylo
 		Payload:     data,
 	}
 	return s.db.Write(ctx, func(tx stoabs.WriteTx) error {
+		verifhook.Point("dag.payload.inwrite", transaction.Ref())
 		if err := s.saveEvent(tx, event); err != nil {
 			return err
 		}
 		return s.payloadStore.writePayload(tx, payloadHash, data)
 	}, stoabs.AfterCommit(func() {
+		verifhook.Point("dag.payload.committed", transaction.Ref())
 		s.notify(event)
 	}), stoabs.WithWriteLock())
 }
